@@ -46,6 +46,7 @@ def hist_replay(f: Dict[str, Any], layer: Dict[str, Any], msgs: List[str]) -> Di
         "layer": "hist",
         "history_seed": history_seed_of(f["id"]),
         "steps": layer["steps"],
+        "opts": layer.get("opts", {}),
         "record_id": f["id"],
         "messages": msgs,
         "how_to_replay": "./check <property> --replay <this file>  (regenerates the history from history_seed against the current /repo tree and re-evaluates model and monitors)",
